@@ -61,7 +61,7 @@ FFTLIBS = ("fftw", "numpy")
 MODES = (("red", "unit"), ("red", "sym"), ("red", "shift"), ("red", "noisy"), ("grid", "unit"), ("grid", "shift"))
 LATS = ("sc", "tet", "orth", "hex", "fcc", "bcc", "mono", "tric")
 MESHES = ((1, 1, 1), (2, 1, 1), (2, 2, 1), (2, 2, 2), (3, 2, 1), (3, 3, 3), (4, 2, 2), (4, 4, 1))
-CENS = ("zero", "generic", "half", "thirds", "outside", "shared", "near", "far")
+CENS = ("zero", "generic", "half", "thirds", "outside", "shared", "near", "far", "translates", "chain3")
 NW = 3
 
 
@@ -73,6 +73,12 @@ def centres(name, nw=NW):
         return np.array(c[:nw], dtype=float)
     if name == "far":    # centres many cells apart: the minimal image of a pair lies > 3 supercells away on small meshes
         c = [[0.0, 0.0, 0.0], [6.6, 0.0, 0.0], [0.1, 9.7, 0.3], [-0.2, 0.4, 5.6]]
+        return np.array(c[:nw], dtype=float)
+    if name == "translates":   # lattice translates of one centre: different pair shifts that are equal modulo a lattice vector
+        c = [[0.1, 0.2, 0.3], [1.1, 0.2, 0.3], [0.1, -0.8, 0.3], [0.1, 0.2, 2.3]]
+        return np.array(c[:nw], dtype=float)
+    if name == "chain3":       # equidistant centres 0, 1/3, 2/3: tau_1-tau_0 = tau_2-tau_1 = (tau_0-tau_2) + 1
+        c = [[0.0, 0.0, 0.0], [1.0 / 3, 0.0, 0.0], [2.0 / 3, 0.0, 0.0], [1.0, 0.0, 0.0]]
         return np.array(c[:nw], dtype=float)
     return zoo.centres(name, nw)
 
